@@ -103,6 +103,7 @@ type runCtx struct {
 	prop    string
 	tier    string
 	seed    uint64
+	known   string // comma separated violation classes listed as known findings for this property
 }
 
 func newRunCtx(info *buildInfo, prop, tier string, seed uint64) (*runCtx, error) {
@@ -239,8 +240,15 @@ func (rc *runCtx) runPhase(ph phase) []workerOutcome {
 			if ph.MaxSeeds > 0 {
 				hi = lo + ph.MaxSeeds
 			}
+			extra := map[string]string{}
+			for k, v := range ph.Extra {
+				extra[k] = v
+			}
+			if rc.known != "" {
+				extra["known"] = rc.known
+			}
 			job := Job{Engine: ph.Engine, Property: rc.prop, Mix: ph.Mix, Mode: ph.Mode, Tier: rc.tier,
-				SeedLo: lo, SeedHi: hi, BudgetS: ph.BudgetS, Samples: ph.Samples, Extra: ph.Extra}
+				SeedLo: lo, SeedHi: hi, BudgetS: ph.BudgetS, Samples: ph.Samples, Extra: extra}
 			if k != 0 {
 				job.Samples = 0
 			}
